@@ -124,3 +124,33 @@ def bfs_local(build, events_of, apply, key_of, on_transition, depth, max_states=
         if not frontier:
             break
     return {"states": len(seen), "transitions": transitions, "max_depth": levels, "frontier_emptied": not frontier, "unexpanded": len(frontier), "samples": samples}
+
+
+def long_paths(build, events_of, on_transition, length, n_paths=3):
+    """Depth ladder: `n_paths` fixed, deterministic event sequences of `length` steps (events drawn from the enabled menu by a
+    linear congruential sequence with fixed constants - the same paths on every run), far beyond the breadth-first depth.
+    The same on_transition callback (apply + invariants) as in the breadth-first search is used for every step."""
+    transitions = 0
+    longest = 0
+    paths = []
+    for p in range(n_paths):
+        st = build()
+        hist = []
+        x = 12345 + 7919 * p
+        for _ in range(length):
+            evs = events_of(st)
+            x = (x * 1103515245 + 12345) % (1 << 31)
+            ev = evs[(x >> 8) % len(evs)]
+            after = on_transition(list(hist), ev, st)
+            transitions += 1
+            if after is None:
+                # the event is not applicable here (or failed and was reported): continue the path from the same history
+                st = build()
+                for e in hist:
+                    st = on_transition.apply(st, e)
+                continue
+            st = after
+            hist.append(ev)
+        longest = max(longest, len(hist))
+        paths.append(hist)
+    return {"states": transitions, "transitions": transitions, "max_depth": longest, "frontier_emptied": False, "unexpanded": 0, "samples": [p[:12] for p in paths[:1]], "long_paths": n_paths, "long_steps": transitions}
